@@ -4,6 +4,9 @@ use std::vec::Vec;
 
 use crate::{Equivalent, TryReserveError};
 
+#[path = "raw_entry_v1.rs"]
+pub mod raw_entry_v1;
+
 pub struct IndexMap<K, V, S> {
     pub(crate) entries: Vec<(K, V)>,
     pub(crate) hash_builder: S,
